@@ -25,6 +25,27 @@ const (
 	ProtoRabbit = "amqp-rabbit"
 )
 
+// maxPrealloc is the most that is allocated for a length field before its data
+// has arrived: lengths come from the peer and can announce up to 4 GiB.
+const maxPrealloc = 128 << 10
+
+// readBytes reads exactly n bytes. Small buffers are allocated up front, larger
+// ones grow with the data that actually arrives.
+func readBytes(r io.Reader, n uint64) ([]byte, error) {
+	if n <= maxPrealloc {
+		data := make([]byte, n)
+		if _, err := io.ReadFull(r, data); err != nil {
+			return nil, err
+		}
+		return data, nil
+	}
+	var buf bytes.Buffer
+	if _, err := io.CopyN(&buf, r, int64(n)); err != nil {
+		return nil, err
+	}
+	return buf.Bytes(), nil
+}
+
 func writeSlice(wr io.Writer, data []byte) error {
 	_, err := wr.Write(data[:])
 	return err
@@ -63,8 +84,9 @@ func ReadFrame(r io.Reader) (frame *Frame, err error) {
 		return nil, err
 	}
 
-	var payload = make([]byte, payloadSize+1)
-	if _, err := io.ReadFull(r, payload); err != nil {
+	// payload and frame-end octet; payloadSize+1 would wrap in uint32
+	payload, err := readBytes(r, uint64(payloadSize)+1)
+	if err != nil {
 		return nil, err
 	}
 	frame.Payload = payload[0:payloadSize]
@@ -212,10 +234,7 @@ func ReadLongstr(r io.Reader) (data []byte, err error) {
 		return nil, err
 	}
 
-	data = make([]byte, length)
-
-	_, err = io.ReadFull(r, data)
-	if err != nil {
+	if data, err = readBytes(r, uint64(length)); err != nil {
 		return nil, err
 	}
 	return
